@@ -100,6 +100,8 @@ int main(int argc, char** argv)
                 if (isint) {
                     std::vector<int> yy(y.begin(), y.end()), rr(init.begin(), init.end());
                     if (fn == 0) comm->communicate_T(yy, rr, bs);
+                    // standard package: only the owner-side reduction is the caller's (the sender-side function keeps its default)
+                    else if (fn == 1 && !tap) comm->communicate_T(yy, rr, bs, std::function<int(int,int)>([](int a, int b){ return std::max(a, b); }));
                     else if (fn == 1) comm->communicate_T(yy, rr, bs, std::function<int(int,int)>([](int a, int b){ return std::max(a, b); }),
                                                          std::function<int(int,int)>([](int a, int b){ return std::max(a, b); }), -1000000);
                     else comm->communicate_T(yy, rr, bs, std::function<int(int,int)>(select_func), std::function<int(int,int)>(select_func), -1);
@@ -107,6 +109,7 @@ int main(int argc, char** argv)
                 } else {
                     std::vector<double> yy(y.begin(), y.end()), rr(init.begin(), init.end());
                     if (fn == 0) comm->communicate_T(yy, rr, bs);
+                    else if (!tap) comm->communicate_T(yy, rr, bs, std::function<double(double,double)>([](double a, double b){ return std::max(a, b); }));
                     else comm->communicate_T(yy, rr, bs, std::function<double(double,double)>([](double a, double b){ return std::max(a, b); }),
                                              std::function<double(double,double)>([](double a, double b){ return std::max(a, b); }), -1000000.0);
                     for (double v : rr) res.push_back((long long)llround(v));
